@@ -27,6 +27,7 @@ REAL_OF = {"float32": "float32", "float64": "float64", "complex64": "float32", "
 META = {
     "rule": "dtypes float32/float64/complex64/complex128 x arrays (abelian, fermionic with pending signs, block vectors; n<=3 plus (index, conjugate index) matrices with absent sectors; sparsity patterns with missing sectors) x every catalogue "
     "operation at depth 1 and, from arrays with n<=2, every core operation on every result of the structure-creating first operations (fuse, reshape, contraction, decompositions, conj/dagger, sync_charges, fill_missing_blocks, ...: depth 2 reaches unfuse / reshape-back / contraction of fused and truncated results); "
+    "creation: random / utils.get_rand for every dtype x distribution x scale / offset form (python float, numpy scalars of either precision, 0-d array) must give blocks of the requested type; "
     "non-trivial = call on a single-precision or complex operand that returns at least one array block",
     "bounds": {"quick": "depth 1 all roots (n<=3 and 4-index arrays over the pair menu: the smallest arrays whose fused blocks can have holes), depth 2 from n<=2", "thorough": "depth 2 from all roots"},
     "assumptions": [
@@ -222,13 +223,78 @@ def groups(ctx):
             for k in range(nch):
                 out.append((sym, ferm, k, nch))
         out.append((sym, "vector", 0, 1))
+        out.append((sym, "create", 0, 1))
     return out
+
+
+SCALARS = {
+    "default": None,
+    "python-float": 0.5,
+    "numpy.float64": np.float64(0.5),
+    "numpy.float32": np.float32(0.5),
+    "numpy-0d": np.array(0.5),
+}
+
+
+def create_failures(sym, st=None):
+    """random constructors: every block of the created array has the requested element type, whatever distribution and
+    whatever form the scale / offset arguments take (python scalar, numpy scalars of either precision, 0-d array)"""
+    import symmray as sr
+    from ..arrays import get_class, make_index
+
+    fails = []
+    for ferm in (False, True):
+        klass, kw = get_class(sym, ferm, "dyn")
+        for indices in U.index_tuples(sym, 2, "m2", "a"):
+            idx = [make_index(i) for i in indices]
+            for dt in DTYPES:
+                for dist in ("normal", "uniform"):
+                    for sname, sc in SCALARS.items():
+                        for which in ("scale", "loc"):
+                            if sc is None and which == "loc":
+                                continue
+                            extra = {} if sc is None else {which: sc}
+                            try:
+                                x = klass.random([i for i in idx], seed=3, dtype=dt, dist=dist, **extra, **kw)
+                            except Exception as e:
+                                if st is not None:
+                                    st.refuse("random", e)
+                                continue
+                            if st is not None:
+                                st.evaluations += 1
+                                st.transitions += 1
+                            bad = sorted({str(np.asarray(b).dtype) for b in x.blocks.values()} - {dt})
+                            if bad:
+                                fails.append((f"C20/random[{which}={sname}]/dtype", f"{sym} {'fermionic' if ferm else 'abelian'} dtype={dt} dist={dist}: blocks of type {bad}"))
+    # the helper in utils
+    for dt in DTYPES:
+        for sname, sc in SCALARS.items():
+            if sym == "Z4":
+                continue
+            extra = {} if sc is None else {"scale": sc}
+            try:
+                x = sr.utils.get_rand(sym, (2, 3), seed=1, dtype=dt, **extra)
+                bad = sorted({str(np.asarray(b).dtype) for b in x.blocks.values()} - {dt})
+                if bad:
+                    fails.append((f"C20/utils.get_rand[scale={sname}]/dtype", f"{sym} dtype={dt}: blocks of type {bad}"))
+                if st is not None:
+                    st.evaluations += 1
+            except Exception as e:
+                if st is not None:
+                    st.refuse("utils.get_rand", e)
+    return fails
 
 
 def run_group(ctx, group):
     sym, ferm, k, nch = group
     st = Stats()
     reset_library_state()
+    if ferm == "create":
+        for sig, det in create_failures(sym, st):
+            st.violation(sig, {"root": ("create", sym), "dtype": None}, det)
+        st.states += 1
+        st.traces += 1
+        return st
     if ferm == "vector":
         for i in range(len(vector_roots(sym))):
             for dt in DTYPES:
@@ -269,6 +335,8 @@ def run_group(ctx, group):
 
 
 def replay(ctx, case):
+    if isinstance(case["root"], (tuple, list)) and case["root"][0] == "create":
+        return create_failures(case["root"][1])
     # replay with the history the explorer used: the same structure in double precision first
     if case["dtype"] != "float64" and not (isinstance(case["root"], tuple)):
         root_failures(case["root"], "float64", warm_only=True)
